@@ -182,8 +182,9 @@ func main() {
 			r.MustHandle("GET", "/slash/", special, append(append([]fox.RouteOption(nil), ro...), fox.WithRedirectTrailingSlash(true))...)
 		}
 		for bi, b := range behs {
-			for _, kind := range []string{"route", "noroute", "nomethod", "options", "redirect"} {
-				if kind == "redirect" && bi > 3 {
+			// the redirect follows a route request directly: it is served from the pooled context that request just released
+			for _, kind := range []string{"route", "redirect", "noroute", "nomethod", "options"} {
+				if kind == "redirect" && bi%8 != 0 {
 					continue // the internal redirect handler has a single behaviour
 				}
 				rm := remotes[(bi+ci)%len(remotes)]
